@@ -21,7 +21,7 @@ ASSUMPTIONS = [
     "cvc5 1.0 / system z3 4.8.12 binaries are correct on the wide-domain programs they decide",
     "default backend in this sandbox is z3 (no other backend importable)",
 ]
-REQUIRED = ["msolve.find_answer", "msolve.model_checked", "c01.sessions", "c01.sessions_crossing_10", "c01.planted_with_timeout_knob", "c01.sessions_crossing_100", "c01.wide_programs",
+REQUIRED = ["msolve.find_answer", "msolve.model_checked", "c01.sessions", "c01.sessions_crossing_10", "c01.programs_with_shared_subterms", "c01.planted_with_timeout_knob", "c01.sessions_crossing_100", "c01.wide_programs",
             "c01.ast_crosscheck", "c01.fixed_programs", "c01.realistic_graph", "c01.boundary_programs"]
 
 ALL_OPS = ["VAR", "BOOL_CONSTANT", "INT_CONSTANT", "NEG", "ADD/1", "ADD/2", "ADD/n", "SUB/2", "SUB/n", "EQ", "NE",
@@ -45,7 +45,12 @@ def run_program(ctx, st, prog, tag):
     s = cspuz.Solver()
     vars_ = progs.declare(s, prog["decls"])
     try:
-        built = [progs.build(c, vars_) for c in prog["constraints"]]
+        if ctx.rng.random() < 0.5:
+            with progs.shared():  # equal sub-terms are ONE object, as in `a = x & y; ensure(a | z, a.then(w))`
+                built = [progs.build(c, vars_) for c in prog["constraints"]]
+            ctx.count("c01.programs_with_shared_subterms")
+        else:
+            built = [progs.build(c, vars_) for c in prog["constraints"]]
         post_in_some_form(ctx, s, built)
     except Exception as e:
         ctx.violation(f"dsl-build-raises:{type(e).__name__}", f"building a well-typed program raised {e!r}", ctx.current_case)
@@ -116,6 +121,9 @@ def judge(ctx, st, s, vars_, decls, constraints, tag):
 
 def run_session(ctx, st, sess):
     """Incremental session: list of steps ['decl', d] | ['ensure', B] | ['solve']."""
+    if ctx.rng.random() < 0.5 and not sess.get("_shared"):
+        with progs.shared():
+            return run_session(ctx, st, dict(sess, _shared=True))
     s = cspuz.Solver()
     vars_, decls, cons = [], [], []
     nsolve = 0
